@@ -447,29 +447,36 @@ Definition leaf_pat (lf : leaf) (v : val) : Z :=
   | _ => zof v mod 2 ^ csz (leaf_cty lf)
   end.
 
-Definition one_cell (t : ty) (al : bool) (v : val) : mem :=
+(* the scalar objects of a value tree: chain, what the field is, its value *)
+Definition one_cell (t : ty) (al : bool) (v : val) : list (chain * (leaf * val)) :=
   match single_leaf t al with
-  | Some lf => [([], mkcell (leaf_cty lf) (leaf_pat lf v))]
+  | Some lf => [([], (lf, v))]
   | None => []
   end.
 
-Fixpoint store (t : ty) (v : val) : mem :=
+Fixpoint cells (t : ty) (v : val) : list (chain * (leaf * val)) :=
   match t with
   | TAlias t' =>
       match t' with
-      | TArr _ _ _ => store t' v
+      | TArr _ _ _ => cells t' v
       | _ => one_cell t' true v
       end
   | TArr _ cap e =>
-      flat_map (fun k => map (pre (SI k)) (store e (nth k (vlist v) (VZ 0)))) (seq 0 cap)
+      flat_map (fun k => map (pre (SI k)) (cells e (nth k (vlist v) (VZ 0)))) (seq 0 cap)
   | TMsg _ fs =>
-      (fix go (l : list (Z * ty)) : mem :=
+      (fix go (l : list (Z * ty)) : list (chain * (leaf * val)) :=
          match l with
          | [] => []
-         | kf :: r => map (pre (SF (fst kf))) (store (snd kf) (vfield (fst kf) v)) ++ go r
+         | kf :: r => map (pre (SF (fst kf))) (cells (snd kf) (vfield (fst kf) v)) ++ go r
          end) fs
   | _ => one_cell t false v
   end.
+
+Definition cell_of (x : chain * (leaf * val)) : chain * cell :=
+  (fst x, mkcell (leaf_cty (fst (snd x))) (leaf_pat (fst (snd x)) (snd (snd x)))).
+
+(* the struct memory holding value v (every member, declared type and bit pattern) *)
+Definition store (t : ty) (v : val) : mem := map cell_of (cells t v).
 
 Definition zero_mem (t : ty) : mem :=
   map (fun x => (fst x, mkcell (leaf_cty (snd x)) 0)) (leaves t).
